@@ -202,6 +202,8 @@ impl<F> FuturesUnorderedBounded<F> {
             count += 1;
             // if we are in a pending only loop - let's break out.
             if count > MAX {
+                #[cfg(futures_buffered_verif)]
+                crate::verif::hit(crate::verif::Hit::BudgetExhausted);
                 cx.waker().wake_by_ref();
                 return Poll::Pending;
             }
@@ -209,6 +211,8 @@ impl<F> FuturesUnorderedBounded<F> {
             match unsafe { self.shared.pop() } {
                 crate::waker_list::ReadySlot::None => return Poll::Pending,
                 crate::waker_list::ReadySlot::Inconsistent => {
+                    #[cfg(futures_buffered_verif)]
+                    crate::verif::hit(crate::verif::Hit::QueueInconsistent);
                     cx.waker().wake_by_ref();
                     return Poll::Pending;
                 }
@@ -221,6 +225,10 @@ impl<F> FuturesUnorderedBounded<F> {
                         if let Poll::Ready(x) = res {
                             return Poll::Ready(Some((i, x)));
                         }
+                    }
+                    #[cfg(futures_buffered_verif)]
+                    if self.tasks.get(i).is_none() {
+                        crate::verif::hit(crate::verif::Hit::VacantSlotPopped);
                     }
                 }
             }
